@@ -123,13 +123,18 @@ class C08Harness(DocMixin):
                 _TOK8 = env.make_tokenizer()
 
     def body(self, v):
-        cells = [v[f"c{i}"] for i in range(len(self.holes))]
-        for c in cells:
-            if not in_domain(c):
-                return SKIP
         from engine.env import build_cells, sym_doc
 
-        d = sym_doc(build_cells(self.skeleton, self.holes, cells))
+        if self.template:
+            d = self.doc_from_template(v)
+            if d is None:
+                return SKIP
+        else:
+            cells = [v[f"c{i}"] for i in range(len(self.holes))]
+            for c in cells:
+                if not in_domain(c):
+                    return SKIP
+            d = sym_doc(build_cells(self.skeleton, self.holes, cells))
         try:
             g = TransformToGfm().transform(_TOK8.transform(d, show_debug=False))
         except Exception:  # noqa
